@@ -83,3 +83,17 @@ Proof.
   destruct (correlation_data inbound) as [c|]; [|reflexivity].
   destruct (N.ltb_spec C (lenN c)); destruct (N.leb_spec (lenN c) C); try lia; reflexivity.
 Qed.
+
+(* the publication built later from the owned copy is the one reply() would have built from the borrowed packet:
+   same topic, same correlation data, the user's properties after it *)
+Theorem owned_publication_is_reply : forall inbound T C t c user,
+  reply_owned inbound T C = OwnOk t c ->
+  reply_with inbound user = Some (owned_publication t c user).
+Proof.
+  intros inbound T C t c user H. unfold reply_owned in H. unfold reply_with, reply, owned_publication.
+  destruct (response_topic inbound) as [t0|]; [|discriminate H].
+  destruct (T <? lenN t0); [discriminate H|].
+  destruct (correlation_data inbound) as [c0|].
+  - destruct (C <? lenN c0); [discriminate H|]. injection H as Ht Hc. subst t c. reflexivity.
+  - injection H as Ht Hc. subst t c. reflexivity.
+Qed.
